@@ -143,6 +143,47 @@ def h_taper(env, n_orbs, mapping, utd, ne, spin, canary=False):
         env.check_vec_eq(lhs, rhs, f"H V|{b}> == V H_tapered|{b}>  [{mapping}, up_then_down={utd}]")
 
 
+def h_taper_structure(env, molkey, mapping, utd):
+    """larger registers (enumerated, concrete PySCF Hamiltonians): the structural premises of the certificate - distinct
+    tapered qubits, sigma_i anticommutes with tau_i and commutes with every other tau_j, generators commute with every
+    term, register shrinks by k - plus a numerical spectral inclusion (numpy eigenvalues, tolerance 1e-8)"""
+    from tangelo.toolboxes.qubit_mappings.mapping_transform import fermion_to_qubit_mapping
+    from tangelo.toolboxes.operators.taper_qubits import QubitTapering
+    from tangelo.toolboxes.operators.z2_tapering import get_clifford_operators
+    from tangelo.toolboxes.operators import count_qubits
+    from harness.c07 import mol
+    from openfermion import get_sparse_operator
+    with shim.concrete_mode():
+        m = mol(molkey)
+        n = m.n_active_sos
+        qH = fermion_to_qubit_mapping(m.fermionic_hamiltonian, mapping, n_spinorbitals=n, n_electrons=m.n_active_electrons,
+                                      up_then_down=utd, spin=m.active_spin)
+        tap = QubitTapering(qH, n, m.n_active_electrons, m.active_spin, mapping, utd)
+        Ht = tap.z2_tapered_op.qubitoperator
+        kernel = tap.initial_op.get_kernel()
+        cliffords, q_indices = get_clifford_operators(kernel)
+        k = tap.z2_properties["n_symmetries"]
+        q_indices = [int(q) for q in q_indices]
+        taus = [dict(word_from_binary(kernel[i], n)) for i in range(len(kernel))]
+        sigmas = [dict(word_from_binary(cliffords[i].binary[0], n)) for i in range(len(cliffords))]
+
+        def anti(a, b):
+            return sum(1 for q, p in a.items() if q in b and b[q] != p) % 2
+        env.check_same(len(set(q_indices)), len(q_indices), f"tapered qubit indices are pairwise distinct ({q_indices})")
+        env.check_same(len(q_indices), k, "one tapered qubit per symmetry")
+        for i, s_ in enumerate(sigmas):
+            env.check_true(len(s_) == 1, f"sigma_{i} is a single-qubit Pauli")
+            for j, t_ in enumerate(taus[:len(sigmas)]):
+                env.check_same(anti(s_, t_), 1 if i == j else 0, f"sigma_{i} {'anti' if i == j else ''}commutes with tau_{j}")
+        for t_ in taus:
+            env.check_true(all(anti(t_, dict(term)) == 0 for term in qH.terms), "generator commutes with every Hamiltonian term")
+        env.check_true(count_qubits(Ht) <= n - k, "tapered operator acts on n - k qubits")
+        ev_full = np.linalg.eigvalsh(get_sparse_operator(qH.to_qubitoperator() if hasattr(qH, "to_qubitoperator") else qH, n_qubits=n).toarray())
+        ev_tap = np.linalg.eigvalsh(get_sparse_operator(Ht, n_qubits=n - k).toarray()) if n - k > 0 else np.array([Ht.terms.get((), 0.0).real])
+        worst = max(min(abs(e - f) for f in ev_full) for e in ev_tap)
+        env.check_true(worst < 1e-8, "every eigenvalue of the tapered operator is an eigenvalue of the original (numerical, 1e-8)", detail=str(worst))
+
+
 def h_trim(env, layout, words, canary=False):
     """layout: list of per-qubit wire descriptions; entangled part on the qubits marked 'E'"""
     from tangelo.linq import Circuit, Gate
@@ -236,6 +277,10 @@ def shapes(tier, seed):
     for (no, mp, utd, ne, sp) in taper:
         out.append(Shape(f"taper/o{no}/{mp}/utd={int(utd)}/e{ne}s{sp}", h_taper, dict(n_orbs=no, mapping=mp, utd=utd, ne=ne, spin=sp),
                          modules=MODS, max_paths=16))
+    for mk in (("H4",) if tier == "quick" else ("H4", "H4+", "H2")):
+        for mp in ("jw", "bk", "jkmn"):
+            for utd in (False, True):
+                out.append(Shape(f"taper_structure/{mk}/{mp}/utd={int(utd)}", h_taper_structure, dict(molkey=mk, mapping=mp, utd=utd), modules=()))
     out.append(Shape("canary/taper", h_taper, dict(n_orbs=2, mapping="jw", utd=False, ne=2, spin=0, canary=True), modules=MODS, max_paths=16, canary=True))
     layouts = [
         (["E", "E", ""], [[(0, "X"), (1, "Y")], [(2, "Z")], [(0, "Z"), (2, "Z")], [(2, "X")]]),
